@@ -195,12 +195,14 @@ impl<D: DictionaryAccess> DictBuilder<D> {
     /// Read the connection matrix from either a file or an in-memory buffer
     pub fn read_conn<'a, T: AsDataSource<'a> + 'a>(&mut self, data: T) -> SudachiResult<()> {
         let report = ReportBuilder::new(data.name()).read();
-        match data.convert() {
+        let result = match data.convert() {
             DataSource::File(p) => self.conn.read_file(p),
             DataSource::Data(d) => self.conn.read(d),
-        }?;
+        };
+        // a failed read can have changed the matrix size, entries must be validated against it
         self.lexicon
             .set_max_conn_sizes(self.conn.left(), self.conn.right());
+        result?;
         self.reporter.collect(
             self.conn.left() as usize * self.conn.right() as usize,
             report,
